@@ -3,6 +3,8 @@ import PdshVerif.Pcp.Frame
 import PdshVerif.Pcp.Variant
 import PdshVerif.Pcp.Feed
 import PdshVerif.Pcp.Spec
+import PdshVerif.Pcp.Links
+import PdshVerif.Pcp.MultiConfine
 
 /-! # C12  A copy peer can only write inside the destination it was given
 
@@ -35,8 +37,36 @@ initial file system and every option setting.
                          -- C12 as ONE statement about the final file system (receiver with a name rule):
                            every path not beneath the destination holds exactly what it held before.
 
-Not proved here: memory safety of the compiled C beyond the three buffers (ASan/UBSan on the harness
-side).
+* `confined_many`        -- the second entry point, `dsh.c _pcp_server`: the receivers of an rpdcp run are THREADS of one
+                           process on one file system.  In the product automaton (Pcp/Multi.lean), whatever the streams
+                           and however their bytes interleave, every receiver hands only paths beneath ITS destination
+                           to modifying system calls (the invariant does not look at the file system, so the other
+                           receivers cannot disturb it).
+* `escapes_only_through_links`, `symlink_escape_witness`, `no_link_beneath_no_escape`
+                         -- "never follows a received name out of it", with symbolic links that ALREADY EXIST inside
+                           the destination (Pcp/Links.lean: the link-free model describes them by translation, `graftAll`
+                           / `physicalAll`; the translation is tested against the real kernel by the check): the receiver
+                           with a name rule leaves its destination ONLY through such links and then lands beneath the
+                           link's target; it DOES follow them (`stat`/`open`/`chmod`/`utimes` follow links: decided
+                           witness, finding F12-SYMLINK-FOLLOW, as rcp/scp do); without a link beneath the destination
+                           the view is the file system and `confined`/`only_beneath_dest` apply as they are.
+
+## Every array and allocation of pcp_server.c  (the memory-safety clause)
+
+| object                               | where                          | accounted for by |
+|--------------------------------------|--------------------------------|------------------|
+| `buf = malloc(BUFSIZ)`               | `_sink` record reader          | proved: `reader_in_bounds` (every write index, the terminating NUL included, `< BUFSIZ`; model field `ub`); freed at `end_server` on every path (`sink_done`: every level returns) except the early `return` after a failed `_verifydir` (a leak of one block, no access) |
+| `namebuf = malloc(need)`             | `_sink` name join              | proved: `reader_in_bounds` (`strlen(targ)+strlen(cp)+250 >=` joined length + 1; `snprintf` is bounded by `cursize` anyway) |
+| `bp->buf = malloc(size)` (`_allocbuf`) | `_sink` data loop             | proved: `reader_in_bounds` (`cp` advances by what `read` returned, `count <= bp->cnt`, reset when `count == bp->cnt`; `CntOk`: `cnt` a positive multiple of BUFSIZ) |
+| `char newfmt[1000]` (`_error`)       | error record format            | bounded by construction: `snprintf(newfmt, 1000, ...)`; every format passed in is a string literal shorter than 40 bytes; received names reach `errf` only as ARGUMENTS (names full of `%` directives are pinned cases of every run) -- sanitizer-supported |
+| `struct timeval tv[2]`               | `_sink` (`atime`/`mtime`)      | constant indices 0 and 1 only |
+| `struct stat stb`, `char ch`, `char resp` | `_sink`, `_verifydir`, `_allocbuf`, `_response` | scalars, written by `stat`/`fstat`/`read(.., 1)` with `sizeof` the object |
+| `BUF buffer` (`pcp_server`)          | one per call, automatic        | `memset` to 0, handed down by pointer, `buffer.buf` freed once after `_sink` returned |
+| `FILE *fp` (`_error`)                | `fdopen` per call              | never closed (one `FILE` leaked per error record; no access after free); shared by threads only in the code as found (F11-ERRFP-RACE, Props/C11) |
+| objects of static storage            | `copyright[]`, `rcsid[]`       | never written; the check lists the object file's data/bss symbols on every run (`nm`, `static_objects`) and fails when there is one the model does not know |
+
+Not proved here: memory safety of the compiled C beyond the index obligations above (ASan/UBSan on the harness
+side: every case of the check runs the real `pcp_server()` under both).
 -/
 namespace PdshVerif.Props.C12
 open PdshVerif.Pcp
@@ -180,6 +210,83 @@ example : wfs (destPath (wopts .slashDotdot)) ≠ none ∧
   refine ⟨by decide +kernel, ?_⟩
   exact only_beneath_dest (wopts .slashDotdot) (by decide) wfs wstream2 _ (by decide +kernel)
     (Or.inl (by decide +kernel))
+
+/-! ## several receivers in one process (rpdcp) -/
+
+/-- **C12 for the rpdcp receiver threads.**  `os` are the options of the K receivers of the process (in rpdcp
+they all have the same destination, the local directory), every one with a name rule; `sched` is ANY interleaving of
+the bytes arriving on the K connections and of their ends.  Every path receiver `i` has handed to a successful
+modifying system call lies beneath the destination of receiver `i`. -/
+theorem confined_many (os : List Opts) (hr : ∀ o ∈ os, o.rule ≠ .none) (fs : FS) (sched : List Event)
+    (i : Nat) (o : Opts) (l : Local) (ho : os[i]? = some o)
+    (hl : ((Multi.init os fs).run os sched).conns[i]? = some l) :
+    Spec.Confined (destPath o) l.touched := by
+  intro p hp
+  exact (mgood_run os hr sched _ (mgood_init os fs) i o l ho hl).touched p hp
+
+/-- not vacuous: two receivers, the hostile stream `C0600 0 ../v` on the second connection is refused, the
+first connection's file arrives -/
+example :
+    (((Multi.init [wopts .slashDotdot, wopts .slashDotdot] wfs).run [wopts .slashDotdot, wopts .slashDotdot]
+        ((wstream2.map fun b => (1, some b)) ++ (wstream3.map fun b => (0, some b)))).conns.map (·.touched))
+      = [[[[119], [100], [101]]], []] := by
+  decide +kernel
+
+/-! ## symbolic links that already exist inside the destination -/
+
+/-- **The receiver leaves its destination only through symbolic links that are already there.**  `links` are
+the symbolic links of the file system (path of the link, canonical path of its target); the receiver -- any
+with a name rule -- sees the view `graftAll fs links`.  Whatever the stream, every path handed to a successful
+modifying system call is PHYSICALLY beneath the destination or beneath the target of one of the links. -/
+theorem escapes_only_through_links (o : Opts) (hrule : o.rule ≠ .none) (fs : FS) (links : List (Path × Path))
+    (stream : Str) :
+    ∀ p ∈ (sink o (graftAll fs links) stream).2.2,
+      destPath o <+: physicalAll links p ∨ ∃ l ∈ links, l.2 <+: physicalAll links p := by
+  intro p hp
+  exact physicalAll_beneath links (confined o hrule _ stream p hp)
+
+/-- ... and when no link lies beneath the destination (nor on the way to it) every touched path is where it
+appears to be: C12 holds as stated by `confined` -/
+theorem no_link_beneath_no_escape (o : Opts) (hrule : o.rule ≠ .none) (fs : FS) (links : List (Path × Path))
+    (stream : Str) (hno : ∀ l ∈ links, ¬ destPath o <+: l.1 ∧ ¬ l.1 <+: destPath o) :
+    ∀ p ∈ (sink o (graftAll fs links) stream).2.2, physicalAll links p = p ∧ destPath o <+: p := by
+  intro p hp
+  have hd := confined o hrule _ stream p hp
+  refine ⟨?_, hd⟩
+  unfold physicalAll
+  cases hf : links.find? (fun l => l.1.isPrefixOf p) with
+  | none => rfl
+  | some l =>
+    exfalso
+    have hm := List.mem_of_find?_eq_some hf
+    have hpre : l.1 <+: p := List.isPrefixOf_iff_prefix.1 (by simpa using List.find?_some hf)
+    rcases List.prefix_or_prefix_of_prefix hd hpre with h | h
+    · exact (hno l hm).1 h
+    · exact (hno l hm).2 h
+
+/-- `/w/d` is the destination, `/w/x` a directory next to it -/
+def lfs : FS := fun p =>
+  if p = [] then some (.dir 0o755 none)
+  else if p = [[119]] then some (.dir 0o755 none)
+  else if p = [[119], [100]] then some (.dir 0o755 none)
+  else if p = [[119], [120]] then some (.dir 0o700 none)
+  else none
+
+/-- `D0755 0 l\nC0644 1 e\nX\0E\n` -/
+def lstream : Str := [68, 48, 55, 53, 53, 32, 48, 32, 108, 10, 67, 48, 54, 52, 52, 32, 49, 32, 101, 10, 88, 0, 69, 10]
+
+/-- Finding F12-SYMLINK-FOLLOW mirrored: `/w/d/l` is a symbolic link to the directory `/w/x`.  The directory
+record `D0755 0 l` -- a perfectly plain name -- makes the receiver enter it (`stat` follows the link), and the
+file `e` is created at `/w/x/e`, which is not beneath the destination `/w/d`. -/
+theorem symlink_escape_witness :
+    (sink (wopts .slashDotdot) (graft lfs [[119], [100], [108]] [[119], [120]]) lstream).2.2
+      = [[[119], [100], [108], [101]]] ∧
+    physical [[119], [100], [108]] [[119], [120]] [[119], [100], [108], [101]] = [[119], [120], [101]] ∧
+    ¬ destPath (wopts .slashDotdot) <+: [[119], [120], [101]] := by
+  refine ⟨by decide +kernel, by decide +kernel, ?_⟩
+  have e : destPath (wopts .slashDotdot) = [[119], [100]] := by decide +kernel
+  rw [e]
+  decide
 
 /-! ## buffers, termination -/
 
